@@ -43,6 +43,10 @@ def gen_case(rng, i, tier):
     return dict(prog=p, route=["api_lf", "api_dag", "cli_pl", "cli_pl_bc", "cli_cnf"][i % 5])
 
 
+class CliFailure(Exception):
+    pass
+
+
 def export(text, route):
     from problog.program import PrologString
     from problog.formula import LogicFormula, LogicDAG
@@ -57,7 +61,21 @@ def export(text, route):
     out = fn + ".out"
     flags = {"cli_pl": ["--format", "pl"], "cli_pl_bc": ["--format", "pl", "--break-cycles"], "cli_cnf": ["--format", "cnf"]}[route]
     try:
-        res = ground.main([fn, "-o", out] + flags, result_handler=lambda result, output: result)
+        try:
+            res = ground.main([fn, "-o", out] + flags, result_handler=lambda result, output: result)
+        except SystemExit as ex:
+            # the command line reports a failure by printing the error into the output file and exiting with a status: turn it back into
+            # an exception whose type is the one named in that text, so that it is classified like the API routes
+            try:
+                with open(out) as f:
+                    msg = f.read()[-800:]
+            except OSError:
+                msg = ""
+            # the same export through the API raises the original exception (classified like the API routes)
+            cls2 = LogicDAG if "--break-cycles" in flags else LogicFormula
+            cls2.create_from(PrologString(text), label_all=True, avoid_name_clash=True, keep_order=True).to_prolog()
+            m = re.findall(r"\b([A-Z][A-Za-z]*(?:Error|Exception|Cycle))\b", msg)
+            raise CliFailure("%s: ground exited with status %s: %s" % (m[-1] if m else "UnknownError", ex.code, msg.strip()[-300:]))
         if res is not None and isinstance(res, tuple) and not res[0]:
             raise res[1]
         with open(out) as f:
@@ -164,6 +182,15 @@ def run_case(case):
     except Exception as e:  # noqa
         o = sut.outcome_of_exception(e)
         tag = "" if cls == "clean" else "|" + cls
+        try:
+            # a cyclic definition that collapsed to true is kept as a disjunction whose only child is the constant TRUE
+            from problog.program import PrologString
+            from problog.formula import LogicFormula
+            lf0 = LogicFormula.create_from(PrologString(text), label_all=True, avoid_name_clash=True, keep_order=True)
+            if any(t != "atom" and any(c == 0 for c in n.children) for _i, n, t in lf0):
+                tag = "|collapsed-true-node" + tag
+        except Exception:  # noqa
+            pass
         return viol("export:%s%s" % (o["sig"], tag), "exporting raised %s\n%s" % (sut.describe(o), text), feat=feats, sample=text)
     COUNTERS["exports_" + case["route"]] += 1
     if case["route"] == "cli_cnf":
